@@ -15,6 +15,7 @@ From Verif.C01 Require Import Spec.
 From Verif.C03 Require Import SemExt.
 From Verif.C08 Require Import Spec Basis.
 From Run Require Import GenUtils GenTof GenBeamline TieC01 TieC03.
+Import ListNotations.
 Open Scope R_scope.
 
 Lemma deqb_refl d : deqb d d = true.
@@ -116,6 +117,48 @@ Proof using.
   - apply Qvec_formula; assumption.
   - rewrite !phys_vsc.
     change (mkV (k1 * x1) (k1 * y1) (k1 * z1)) with (vsc k1 (mkV x1 y1 z1)).
+    change (mkV (k2 * x2) (k2 * y2) (k2 * z2)) with (vsc k2 (mkV x2 y2 z2)).
+    rewrite !Qspec_scale by (repeat apply vsc_nz; try assumption; lra). reflexivity.
+Qed.
+
+(* a beam need not carry a length unit: it may be a plain direction vector (unit dimensionless, ANY norm and any
+   multiplier).  beam_dims true = a length, beam_dims false = no unit; the two beams independently.  The kernel
+   normalises in every case: Q is (2 pi/lambda)(e_i - e_f) of the stored numbers' directions *)
+Definition beam_dims (has_length : bool) : dims := if has_length then d_m else ([0;0;0;0;0;0;0;0;0]%Z : dims).
+Lemma Qvec_formula_any_beam_units (u1 u2 : bool) l sl dl x1 y1 z1 s1 x2 y2 z2 s2 :
+  l > 0 -> sl > 0 -> s1 > 0 -> s2 > 0 -> is_num dl = true -> mkV x1 y1 z1 <> v0 -> mkV x2 y2 z2 <> v0 ->
+  let Q := Qspec (l * sl) (mkV x1 y1 z1) (mkV x2 y2 z2) in
+  is_vec h mn (Qvec_of (tvar h mn l sl d_m dl) (tv x1 y1 z1 s1 (beam_dims u1)) (tv x2 y2 z2 s2 (beam_dims u2)))
+         (vx Q) (vy Q) (vz Q) (1 / sl) d_invm.
+Proof using.
+  intros Hl Hsl Hs1 Hs2 Hdl Ha Hb Q.
+  norm_facts (mkV x1 y1 z1) Ha. norm_facts (mkV x2 y2 z2) Hb.
+  pose proof PI_RGT_0.
+  destruct u1, u2; unfold beam_dims;
+  (destruct dl; try discriminate Hdl; unfold Qvec_of; sem_eval;
+    (unfold is_vec; do 4 eexists; split; [reflexivity|]; split; [reflexivity|]; split; [Rgoal; field; lra|];
+     unfold Q, Qspec, dir, norm, dot, vsc, vminus, vdivs; simpl; repeat split; field; lra)).
+Qed.
+
+(* ... hence independent of the lengths of the beams AND of whether / in which unit a length is given *)
+Lemma Qvec_scale_invariant_any_beam_units (u1 u2 u1' u2' : bool) l sl dl x1 y1 z1 s1 x2 y2 z2 s2 k1 k2 s1' s2' :
+  l > 0 -> sl > 0 -> s1 > 0 -> s2 > 0 -> s1' > 0 -> s2' > 0 -> k1 > 0 -> k2 > 0 -> is_num dl = true ->
+  mkV x1 y1 z1 <> v0 -> mkV x2 y2 z2 <> v0 ->
+  exists Q,
+    is_vec h mn (Qvec_of (tvar h mn l sl d_m dl) (tv x1 y1 z1 s1 (beam_dims u1)) (tv x2 y2 z2 s2 (beam_dims u2)))
+           (vx Q) (vy Q) (vz Q) (1 / sl) d_invm
+    /\ is_vec h mn (Qvec_of (tvar h mn l sl d_m dl) (tv (k1 * x1) (k1 * y1) (k1 * z1) s1' (beam_dims u1'))
+                                                     (tv (k2 * x2) (k2 * y2) (k2 * z2) s2' (beam_dims u2')))
+              (vx Q) (vy Q) (vz Q) (1 / sl) d_invm.
+Proof using.
+  intros Hl Hsl Hs1 Hs2 Hs1' Hs2' Hk1 Hk2 Hdl Ha Hb.
+  eexists; split; [apply Qvec_formula_any_beam_units; assumption|].
+  assert (Ha' : mkV (k1 * x1) (k1 * y1) (k1 * z1) <> v0) by (apply (vsc_nz k1 (mkV x1 y1 z1)); [lra | exact Ha]).
+  assert (Hb' : mkV (k2 * x2) (k2 * y2) (k2 * z2) <> v0) by (apply (vsc_nz k2 (mkV x2 y2 z2)); [lra | exact Hb]).
+  replace (Qspec (l * sl) (mkV x1 y1 z1) (mkV x2 y2 z2))
+    with (Qspec (l * sl) (mkV (k1 * x1) (k1 * y1) (k1 * z1)) (mkV (k2 * x2) (k2 * y2) (k2 * z2))).
+  - apply Qvec_formula_any_beam_units; assumption.
+  - change (mkV (k1 * x1) (k1 * y1) (k1 * z1)) with (vsc k1 (mkV x1 y1 z1)).
     change (mkV (k2 * x2) (k2 * y2) (k2 * z2)) with (vsc k2 (mkV x2 y2 z2)).
     rewrite !Qspec_scale by (repeat apply vsc_nz; try assumption; lra). reflexivity.
 Qed.
